@@ -146,3 +146,131 @@ Proof.
   cbv zeta. repeat split; try (left; reflexivity); try (right; reflexivity); try lia;
     try (repeat constructor; discriminate); try (vm_compute; reflexivity).
 Qed.
+
+(* ------------------------------------------------------------------------------------ *)
+(* THE TIE TO THE SOURCE TEXT (DESIGN 2.4 (a)).  Gen/CubeCountsSrc.v and Gen/StripeCountsSrc.v
+   are rewritten from /repo/src/cr/cube/{matrix,stripe}/cubemeasure.py on every check by the ast
+   translator; the theorems below say that what the source SAYS NOW ([teval] of the translated
+   term, Base/Tensor.v), for the class the factory picks for a (rows, columns) pair, IS the
+   extractor [counts_of] / [stripe_counts] / [passthrough_of] / [slice_at] the theorems above
+   are about -- result shape and every in-range cell, for all tensors and sizes.  [None] = the
+   translator could not read the method (then only the correspondence ties it).  A change of
+   meaning in the source breaks these obligations (Proofs/GenAgree.v does not compile). *)
+From Coq Require Import String.
+From CC Require Import Base.Tensor Gen.CubeCountsSrc Gen.StripeCountsSrc Gen.Tables
+     Proofs.GenAgreeTac Proofs.GenAgreeCounts.
+
+Theorem C01_gen_counts :
+  match src_CubeCounts_dispatch with
+  | Some D => forall rc cc,
+      meth src_methods (dict_pick (tag rc, tag cc) (fst D) (snd D)) "counts"
+        (fun e => forall V nr nc sr sc,
+           agrees2 (teval (envC (shape_of rc cc nr nc sr sc) V) e) nr nc (counts_of V rc cc))
+  | None => True
+  end.
+Proof. exact gen_dispatch_counts. Qed.
+Print Assumptions C01_gen_counts.
+
+(* the type strings "MR" / "ARR" / "CAT" the factory computes from the dimension types *)
+Theorem C01_gen_type_strings :
+  match src_CubeCounts_typestr, tbl_DT_members, tbl_DT_sets with
+  | Some R, Some members, Some subsets =>
+      (forall k, k <> DMrCat ->
+         typestr_pick members subsets (dt_name k) (fst R) (snd R) = tag (cls_of (mkDim k []))) /\
+      (forall n, In n cat_like -> typestr_pick members subsets n (fst R) (snd R) = tag CCat)
+  | _, _, _ => True
+  end.
+Proof. exact gen_typestr. Qed.
+Print Assumptions C01_gen_type_strings.
+
+(* counts[cls._slice_idx_expr(cube, slice_idx)] is [slice_at] *)
+Theorem C01_gen_slice_idx_expr :
+  match src_slice_idx_expr with
+  | Some R => forall ndim table_mr k (T : tensor) idx, idx <> [] ->
+      slice_rule_apply R ndim table_mr k T idx = slice_at ndim table_mr k T idx
+  | None => True
+  end.
+Proof. exact gen_slice_idx_expr. Qed.
+Print Assumptions C01_gen_slice_idx_expr.
+
+(* every factory hands the measure's array, cut by _slice_idx_expr, to the class *)
+Theorem C01_gen_factory_arguments :
+  binds_to src_CubeCounts_binds "_counts" (FSliced (FParam "counts")) /\
+  binds_to src_CubeMeans_binds "_means" (FSliced (FCube "means")) /\
+  binds_to src_CubeMedians_binds "_medians" (FSliced (FCube "medians")) /\
+  binds_to src_CubeStdDev_binds "_stddev" (FSliced (FCube "stddev")) /\
+  binds_to src_CubeSums_binds "_sums" (FSliced (FCube "sums")) /\
+  binds_to src_UnconditionalCubeCounts_binds "_counts_with_missings"
+           (FSliced (FCube "counts_with_missings")).
+Proof. exact gen_factory_binds. Qed.
+Print Assumptions C01_gen_factory_arguments.
+
+(* numeric measures: means / medians / stddev / sums classes are [passthrough_of] *)
+Theorem C01_gen_passthrough :
+  match src_CubeMeans_dispatch with
+  | Some D => forall rmr cmr,
+      meth src_methods (cond_pick rmr cmr (fst D) (snd D)) "means"
+        (fun e => forall V nr nc sr sc,
+           agrees2 (teval (env1 "_means" (shape_mr rmr cmr nr nc sr sc) V [] []) e) nr nc
+                   (passthrough_of V rmr cmr))
+  | None => True
+  end /\
+  match src_CubeMedians_dispatch with
+  | Some D => forall rmr cmr,
+      meth src_methods (cond_pick rmr cmr (fst D) (snd D)) "medians"
+        (fun e => forall V nr nc sr sc,
+           agrees2 (teval (env1 "_medians" (shape_mr rmr cmr nr nc sr sc) V [] []) e) nr nc
+                   (passthrough_of V rmr cmr))
+  | None => True
+  end /\
+  match src_CubeStdDev_dispatch with
+  | Some D => forall rmr cmr,
+      meth src_methods (cond_pick rmr cmr (fst D) (snd D)) "stddev"
+        (fun e => forall V nr nc sr sc,
+           agrees2 (teval (env1 "_stddev" (shape_mr rmr cmr nr nc sr sc) V [] []) e) nr nc
+                   (passthrough_of V rmr cmr))
+  | None => True
+  end /\
+  match src_CubeSums_dispatch with
+  | Some D => forall rmr cmr,
+      meth src_methods (cond_pick rmr cmr (fst D) (snd D)) "sums"
+        (fun e => forall V nr nc sr sc,
+           agrees2 (teval (env1 "_sums" (shape_mr rmr cmr nr nc sr sc) V [] []) e) nr nc
+                   (passthrough_of V rmr cmr))
+  | None => True
+  end.
+Proof.
+  exact (conj gen_dispatch_means (conj gen_dispatch_medians (conj gen_dispatch_stddev gen_dispatch_sums))).
+Qed.
+Print Assumptions C01_gen_passthrough.
+
+(* strands: stripe/cubemeasure.py counts of the three classes, and which class the factory picks *)
+Theorem C01_gen_strand_counts :
+  match ssrc_CatCubeCounts_counts with
+  | Some e => forall V n, agrees1 (teval (envS [n] V) e) n (stripe_counts V CCat)
+  | None => True
+  end /\
+  match ssrc_MrCubeCounts_counts with
+  | Some e => forall V n s, agrees1 (teval (envS [n; s] V) e) n (stripe_counts V CMr)
+  | None => True
+  end /\
+  match ssrc_NumArrCubeCounts_counts with
+  | Some e => forall V n, agrees1 (teval (envS [n] V) e) n (stripe_counts V CArr)
+  | None => True
+  end.
+Proof.
+  exact (conj gen_stripe_CatCubeCounts_counts
+        (conj gen_stripe_MrCubeCounts_counts gen_stripe_NumArrCubeCounts_counts)).
+Qed.
+Print Assumptions C01_gen_strand_counts.
+
+Theorem C01_gen_strand_dispatch :
+  match ssrc_CubeCounts_dispatch, tbl_DT_members with
+  | Some D, Some _ =>
+      (forall k, stripe_pick true k (fst D) (snd D) = (stripe_class_name CCat, true)) /\
+      (forall k, k = DCat \/ k = DMrSubvar \/ k = DNumArr ->
+         stripe_pick false k (fst D) (snd D) = (stripe_class_name (cls_of (mkDim k [])), false))
+  | _, _ => True
+  end.
+Proof. exact gen_stripe_dispatch. Qed.
+Print Assumptions C01_gen_strand_dispatch.
